@@ -1187,11 +1187,19 @@ func (bi *blockPointer) mergeAndAppendTopN(
 		bi.field.columns[idx].values = append(bi.field.columns[idx].values, merged)
 	}
 
+	// Append the tags of exactly one row: the source's idx may still point at
+	// earlier rows which the caller has already appended.
+	appendTagsOfRow := func(b *blockPointer, rowIdx int) {
+		idx := b.idx
+		b.idx = rowIdx
+		bi.appendTagFamilies(b, rowIdx+1)
+		b.idx = idx
+	}
 	if rightVer >= leftVer {
-		bi.appendTagFamilies(right, rightIdx+1)
+		appendTagsOfRow(right, rightIdx)
 		bi.versions = append(bi.versions, rightVer)
 	} else {
-		bi.appendTagFamilies(left, leftIdx+1)
+		appendTagsOfRow(left, leftIdx)
 		bi.versions = append(bi.versions, leftVer)
 	}
 	bi.timestamps = append(bi.timestamps, right.timestamps[rightIdx])
